@@ -16,6 +16,15 @@ PIPELINES = {
         ],
         "min_events": 1000,
     },
+    # time values around the form boundaries under many offsets (C09), carried by certificates
+    "time": {
+        "variants": ["ring"],
+        "mc": [{"module": "MC_Time", "workers": 8}],
+        "drivers": [
+            {"name": "cases", "cmd": ["cert-cases", "{cases}", "{out}"], "cases": "MC_Time"},
+        ],
+        "min_events": 1000,
+    },
 }
 
 def _p(level, pipelines, clauses, rule, ops=None, exhaustive=False, assumptions=None):
@@ -26,6 +35,12 @@ PROPS = {
     "C02": _p("model_checking", ["cert"], ["C02."],
               "cases = elements of the finite set Cases of spec/MC_Cert.tla (presence product + value sweeps); an event is distinct by its abstract args (parameters, key algorithms, loading entry point) without key material; every event is non-trivial in that at least the subject, validity and serial clauses are exercised",
               ops=["Cert"], exhaustive=True),
+    "C09": _p("model_checking", ["time", "cert"], ["C09."],
+              "cases = MC_Time.TimeCases: (boundary day, delta seconds, UTC offset) triples around 1950-01-01, 2050-01-01, 0000-01-01 and 10000-01-01, each expressed under an offset and under the negated offset with different sub-second parts; distinct by abstract args",
+              ops=["Cert"], exhaustive=True),
+    "C04": _p("model_checking", ["cert", "time"], ["C04."], "as C02; every artefact is walked by the strict DER reader", ops=["Cert"], exhaustive=True),
+    "C05": _p("model_checking", ["cert"], ["C05."], "as C02", ops=["Cert"], exhaustive=True),
+    "C01": _p("model_checking", ["cert"], ["C01."], "as C02", ops=["Cert"], exhaustive=True),
 }
 
 TRUSTED = ("trusted base: TLC; the TLA+ text; the harness projection (own strict DER/X.509 reader, cross-examined by OpenSSL 3.0 and x509-parser on every artefact); "
